@@ -31,6 +31,23 @@ type embIn1 struct {
 }
 type embOut struct{ embIn1 }
 
+// three fields named "a" at the same depth (two in one embedded struct, one in another): encoding/json
+// drops all of them
+type embA struct{}
+type embB struct{}
+type embC struct{}
+type embE0 struct {
+	embA `json:"a"`
+	embB `json:"a"`
+}
+type embE1 struct {
+	embC `json:"a"`
+}
+type embConflict struct {
+	embE0
+	embE1
+}
+
 type omitM struct {
 	F gen.BoolMT `json:"f,omitempty"`
 }
@@ -59,7 +76,7 @@ var Witnesses = map[string]func() (bool, string){
 			B int
 		}{A: &inner})
 	},
-	known.EncEmbeddedConflict: func() (bool, string) { return differs(embOut{}) },
+	known.EncEmbeddedConflict: func() (bool, string) { return differs(embConflict{}) },
 	known.EncNilPtrFirstMarsh: func() (bool, string) { return differs((*struct{ A gen.PtrMJ })(nil)) },
 	known.EncStringTagOnOthers: func() (bool, string) {
 		x := 7
@@ -72,6 +89,7 @@ var Witnesses = map[string]func() (bool, string){
 }
 
 func init() {
+	Witnesses["FX-ENC-nested-embedded-last-field"] = func() (bool, string) { return differs(embOut{}) }
 	Witnesses["FX-ENC-indent-nil-marshaler-panic"] = func() (bool, string) {
 		v := [2]*stdjson.RawMessage{}
 		want, werr := stdjson.MarshalIndent(v, "", " ")
